@@ -301,6 +301,7 @@ def plan(tier):
         n_img = len(files[names["img"][0]])
         n_led = len(files[names["led"]])
         n_vol = len(files[names["vol"]])
+        info = synth.TYPE_INFO[tc]
         for rpc in RPCS:
             # every cut through the narrow seam (both tiers)
             for c in chunks(range(0, n_img + 1), 400):
@@ -326,7 +327,7 @@ def plan(tier):
             sp2, f2 = make_product(tc, same=same)
             n2 = len(f2[synth.file_names(sp2)["img"][1]])
             rl2 = info["prefix"] + (3 if same else 2) * info["bps"]
-            cuts2 = sorted({c for k in range(5) for c in (720 + k * rl2 - 1, 720 + k * rl2, 720 + k * rl2 + 1, 720 + k * rl2 + info["prefix"]) if 0 <= c <= n2} | set(range(0, n2 + 1, 61)) | {n2 - 1, n2})
+            cuts2 = sorted({c for k in range(5) for c in (720 + k * rl2 - 1, 720 + k * rl2, 720 + k * rl2 + 1, 720 + k * rl2 + info["prefix"]) if 0 <= c <= n2} | set(range(0, n2 + 1, 61 if tier == "quick" else 7)) | {n2 - 1, n2})
             for rpc in (1, 2, 1024):
                 for c in chunks(cuts2, 40):
                     cases.append({"fn": "execute", "type": tc, "rpc": rpc, "file": "img1", "cuts": c, "same": same})
